@@ -399,7 +399,7 @@ func (sc *Scope) evalGoal(e *SExpr) (Term, []string) {
 				extra = append(extra, fmt.Sprintf("(declare-const %s %s)", name, s.Name))
 				inner = inner.with(v.Name, Atom(name, s))
 			}
-			cur = cur.Args[0]
+			cur = cur.Args[0] // (a trigger(...) argument is irrelevant once the variables are skolem constants)
 			continue
 		}
 		if cur.Op == "bin" && cur.Name == "==>" && cur.Args[1].Op == "binder" && cur.Args[1].Name == "forall" && len(cur.Args[1].Vars) > 0 {
